@@ -43,6 +43,6 @@ int rt_tid();
 
 // coverage of schedules: which op-kind pairs overlapped (thread preempted inside X while another executed Y)
 void rt_overlap_matrix(const uint8_t **m, int *dim);     // dim x dim bytes, row = preempted kind, col = kind executed meanwhile
-enum { OV_DIM = 96 };
+enum { OV_DIM = 128 };
 
 } // namespace B
